@@ -89,6 +89,9 @@ type TmplInstance struct {
 	NumFuncs int
 	ssaPkg   *ssa.Package
 	ssaProg  *ssa.Program
+	norm     map[*ast.FuncDecl]*ast.FuncDecl // inlined normal forms (inline.go)
+	Inlined  int                             // helper call sites expanded so far
+	posMap   []posPair                       // synthetic positions of normal forms => source positions
 }
 
 func (ti *TmplInstance) FlagString() string {
@@ -109,18 +112,16 @@ func (ti *TmplInstance) Pos(p token.Pos) string {
 	if !p.IsValid() {
 		return "-"
 	}
-	ps := ti.Fset.Position(p)
+	ps := ti.Fset.Position(ti.OrigPos(p))
 	return fmt.Sprintf("%s:%d", ps.Filename, ps.Line)
 }
 
 // HoleAt finds the rendered hole that produced the source range of node n in template file tmpl.
 func (ti *TmplInstance) HoleAt(tmpl string, n ast.Node) *RenderedHole {
-	f := ti.Files[tmpl]
-	if f == nil {
+	t2, s, e, ok := ti.span(n)
+	if !ok || t2 != tmpl {
 		return nil
 	}
-	base := ti.Fset.File(f.Pos()).Base()
-	s, e := int(n.Pos())-base, int(n.End())-base
 	var best *RenderedHole
 	for _, h := range ti.Holes {
 		if h.Tmpl != tmpl {
@@ -137,6 +138,7 @@ func (ti *TmplInstance) HoleAt(tmpl string, n ast.Node) *RenderedHole {
 
 // TmplOf returns the template constant name whose rendered file contains pos.
 func (ti *TmplInstance) TmplOf(pos token.Pos) string {
+	pos = ti.OrigPos(pos)
 	for name, f := range ti.Files {
 		tf := ti.Fset.File(f.Pos())
 		if tf != nil && tf == ti.Fset.File(pos) {
@@ -161,7 +163,7 @@ func (ti *TmplInstance) FuncDecl(name string) (*ast.FuncDecl, string) {
 				continue
 			}
 			if (recv == "" && fd.Recv == nil) || (recv != "" && recvTypeName(fd) == recv) {
-				return fd, tn
+				return ti.Normalized(fd), tn
 			}
 		}
 	}
